@@ -71,8 +71,10 @@ TIES = {
             "find_vertices": ("DswModel.Tie.SwFind", ["tie_find_vertices"]),
             "connect_valid_graph": ("DswModel.Tie.SwValid", ["tie_connect_valid_graph", "tie_connect_valid_graph_none"]),
             "connect_coding_graph": ("DswModel.Tie.SwCoding", ["tie_connect_coding_graph"]),
+            "remove_nasty_arc": ("DswModel.Tie.SwRemove", ["tie_remove_nasty_arc"]),
         },
-        "extra_modules": ["DswModel.Tie.SwCorollaries", "DswModel.Tie.RepCorollaries", "DswModel.Tie.GraphCorollaries"],
+        "extra_modules": ["DswModel.Tie.SwCorollaries", "DswModel.Tie.RepCorollaries", "DswModel.Tie.GraphCorollaries",
+                          "DswModel.Tie.RemoveCorollaries"],
     },
     "biofilter": {
         "theorems": {
